@@ -75,6 +75,8 @@ structure Tables where
   stubRead : StubIO
   /-- `ValueType.value`: the KV2 type names. -/
   kv2Names : List (VT × List Char)
+  /-- `srctools.BOOL_LOOKUP` in dict order. -/
+  boolLookup : List (List Char × Bool) := []
 deriving Repr
 
 /-! ## (i) wire type codes -/
